@@ -117,6 +117,54 @@ func runC01(c *core.Ctx) {
 		wRunWorkload(k, run, wWorkloadOpts{})
 		checkC01(k, run, slow)
 	})
+	// calls that the byte limit splits over several batches of one partition, the batches of one
+	// call ending differently (permanent codes and exhausted attempts on some produce requests,
+	// success on their neighbours): every message must be reported with the outcome of the batch
+	// that carried it
+	c.CasesPar("split", c.N(500, 40000), 4, func(k *core.Case) {
+		r := k.R
+		cfg := genWriterCfg(r, "")
+		cfg.Brokers = r.Range(1, 2)
+		cfg.Topics = []int{r.Range(1, 2)}
+		if r.Chance(1, 3) {
+			cfg.Topics = append(cfg.Topics, 1)
+			cfg.WriterTopic = false
+		}
+		cfg.BatchSize = core.Pick(r, 100, 100, 5)
+		cfg.BatchBytes = int64(core.Pick(r, 300, 400, 600))
+		cfg.MaxAttempts = core.Pick(r, 1, 1, 2)
+		cfg.Async = r.Chance(1, 4)
+		cfg.Goroutines = core.Pick(r, 1, 1, 2, 3)
+		cfg.Calls = r.Range(1, 4)
+		cfg.MsgsMax = core.Pick(r, 3, 6, 12)
+		cfg.BatchTimeout = time.Duration(core.Pick(r, 2, 10, 50)) * time.Millisecond
+		cfg.Faults = nil
+		for n := 1; n <= 10; n++ {
+			for b := 1; b <= cfg.Brokers; b++ {
+				if !r.Chance(2, 5) {
+					continue
+				}
+				f := wFault{Broker: int32(b), N: n, Act: "error", Code: core.Pick(r, permCodes...)}
+				switch r.Intn(6) {
+				case 0:
+					f.Code = core.Pick(r, tempCodes...)
+				case 1:
+					f.Act = "drop-before"
+				case 2:
+					f.Act, f.Code = "error-apply", 7
+				}
+				cfg.Faults = append(cfg.Faults, f)
+			}
+		}
+		k.Describe(cfg.desc())
+		run := wSetup(k, cfg)
+		wRunWorkload(k, run, wWorkloadOpts{shape: func(r *core.Rand, call *wCall, msgs []kafka.Message) {
+			for i := range msgs {
+				wSizeTo(&msgs[i], call.Msgs[i].ID, int32(r.Range(int(cfg.BatchBytes)/6, int(cfg.BatchBytes)/2+20)))
+			}
+		}})
+		checkC01(k, run, false)
+	})
 }
 
 func checkC01(k *core.Case, run *wRun, slow bool) {
